@@ -3,6 +3,7 @@ Core E, helper lemmas: what the fan-out (and every step other than a SUBSCRIBE)
 may write - forwards to connections carry RETAIN = 0.
 -/
 import Mqtt.Proofs.BrokerFanout
+import Mqtt.Proofs.BrokerConnect
 set_option linter.unusedSimpArgs false
 namespace Mqtt.Proofs.Broker
 open Mqtt.Iface.Broker Mqtt.Model.Broker
@@ -349,7 +350,8 @@ def isSubscribeEv : Ev → Bool
 
 theorem step_out (b : B) (e : Ev) (he : isSubscribeEv e = false) : ∀ o ∈ (step b e).2, noRetainSend o = true := by
   cases e with
-  | first c f a => exact first_out b c f a
+  | first c f a =>
+    exact Mqtt.Proofs.Connect.connect_out (fun o => noRetainSend o = true) stop_out first_out b c f a
   | packet c p =>
     apply packet_out
     intro id ts h
@@ -501,7 +503,8 @@ def isSrvSubEv : Ev → Bool
 callback is invoked with RETAIN = 1 -/
 theorem step_noCall (b : B) (e : Ev) (he : isSrvSubEv e = false) : ∀ o ∈ (step b e).2, noRetainCall o = true := by
   cases e with
-  | first c f a => exact first_noCall b c f a
+  | first c f a =>
+    exact Mqtt.Proofs.Connect.connect_out (fun o => noRetainCall o = true) stop_noCall first_noCall b c f a
   | packet c p => exact packet_noCall b c p
   | close c => exact stop_noCall b c
   | srvPub p => exact srvPub_noCall b p
